@@ -2,8 +2,8 @@ SPEC = dict(
     id="C15",
     bin="c15",
     cases_quick=3000,
-    cases_thorough=100000,
-    shard=200,
+    cases_thorough=30000,
+    shard=500,
     level="proof",
     technique="Coq theorems over a Gallina model of Pool (is_pure byte + two u128 fields; views, checked_add_signed deltas, checked_apply_delta, the program's checked_cancel_amounts override and the trait's default used by the SDK pool) + differential correspondence on op histories of BOTH real implementations (program Pool built from its 48 raw bytes, SDK gmsol_programs Pool) evaluated inside Coq + arithmetic oracle on the Rust outputs",
     text="For every stored total in u128 and every sequence of signed deltas on either side, both-side deltas and nettings: long view + short view = stored total (ceil/floor halves), a successful delta changes the total by exactly its amount and fails (pool unchanged) exactly when the total would leave u128, netting leaves total mod 2; the history theorem reduces a pure pool to a one-number ledger; the SDK pool is proved and observed to go through identical states on pure pools.",
